@@ -4,6 +4,8 @@ go 1.19
 
 require github.com/trustbloc/sidetree-core-go v0.0.0
 
+require github.com/multiformats/go-base32 v0.0.3 // indirect
+
 require (
 	github.com/btcsuite/btcd v0.22.0-beta
 	github.com/btcsuite/btcutil v1.0.3-0.20201208143702-a53e38424cce // indirect
